@@ -69,6 +69,18 @@ def dsAdd (h : Heap) (d : DS) (path : Path) (k : Kind) (o : Nat) (u : Option Str
         | .error e => .error e
         | .ok fs => .ok { d with fields := fs }
 
+/-- `dset.add_collection(".".join(path), write_level=level)`: an empty collection field -/
+def dsAddColl (d : DS) (path : Path) (level : Nat) : M DS :=
+  match path.reverse with
+  | [] => .error .unsupported
+  | nm :: revColl =>
+    let cpath := revColl.reverse
+    if cpath.isEmpty && (getField d.fields nm).isSome then .error .fieldExists else
+    if !cpath.isEmpty && (findField d.fields path).isSome then .ok d else
+    match addAt d.numObs (.coll nm d.numObs level []) cpath d.fields with
+    | .error e => .error e
+    | .ok fs => .ok { d with fields := fs }
+
 /-! ### Deleting a field (`del dset[path]`) -/
 
 def dsDel (d : DS) (path : Path) : M DS :=
@@ -186,6 +198,7 @@ inductive Op
   | new (d n : Nat)
   | obj (kind : Kind) (ndim cols : Nat) (rows : List Row) (other refPos : Option Ref)
   | add (d : Nat) (path : Path) (kind : Kind) (val : Ref) (unit : Option String) (level : Nat)
+  | addColl (d : Nat) (path : Path) (level : Nat)
   | del (d : Nat) (path : Path)
   | subset (d : Nat) (idx : Index)
   | extend (d e : Nat)
@@ -263,6 +276,12 @@ def step (w : W) (op : Op) : M (W × Out) :=
       | .ok x' => .ok (w.setDs d x', .none)
     | .error e, _ => .error e
     | _, .error e => .error e
+  | .addColl d path l =>
+    match w.getDs d with
+    | .error e => .error e
+    | .ok x => match dsAddColl x path l with
+      | .error e => .error e
+      | .ok x' => .ok (w.setDs d x', .none)
   | .del d path =>
     match w.getDs d with
     | .error e => .error e
